@@ -305,12 +305,6 @@ theorem iter_tree (D : Nat → Nat → Rat) (n : Nat) (big : Rat) (k : Nat) (st 
     show ∃ a e, (iter n big (k + 1) (step n big st)).tree = some e ∧ _
     exact ih _ (step_inv D n big st hI (hg 0 (by omega))) (fun t ht => hg (t + 1) (by omega))
 
-/-- initial state of `upgma`: `matrix + eye * BIG`, one tip per label -/
-def init (n : Nat) (d : Mat) (big : Rat) : State :=
-  { m := tab n fun a b => if a = b then get d a b + big else get d a b,
-    order := (List.range n).map fun a => some ({ tree := .tip a, isTip := true, height := 0 } : Entry),
-    tree := none }
-
 theorem upgma_eq (n : Nat) (d : Mat) (big : Rat) :
     upgma n d big = ((iter n big (n - 1) (init n d big)).tree).map (·.tree) := rfl
 
@@ -364,4 +358,44 @@ theorem init_inv (D : Nat → Nat → Rat) (n : Nat) (big : Rat)
     rw [hm a b ha (hlive b hb) hab]
     show 2 * (0 : Rat) ≤ D a b
     have := hDn a b; linarith
+/-! ### soundness of the computable certificate -/
+
+theorem liveB_iff (order : List (Option Entry)) (a : Nat) : liveB order a = true ↔ Live order a := by
+  unfold liveB Live
+  cases h : order.getD a none with
+  | none => simp
+  | some e => simp
+
+theorem goodSelB_sound (n : Nat) (big : Rat) (st : State) (hlen : st.order.length = n)
+    (h : goodSelB n big st = true) : GoodSel n big st := by
+  unfold goodSelB at h
+  simp only [Bool.and_eq_true, Bool.or_eq_true, Bool.not_eq_true', decide_eq_true_eq, List.all_eq_true,
+    List.mem_range] at h
+  obtain ⟨⟨⟨h1, h2⟩, h3⟩, h4⟩ := h
+  refine ⟨(liveB_iff _ _).1 h1, (liveB_iff _ _).1 h2, h3, ?_⟩
+  intro a b ha hb hab
+  have han : a < n := hlen ▸ live_lt _ a ha
+  have hbn : b < n := hlen ▸ live_lt _ b hb
+  rcases h4 a han b hbn with h | h
+  · have : (liveB st.order a && liveB st.order b && decide (a ≠ b)) = true := by
+      simp [(liveB_iff _ _).2 ha, (liveB_iff _ _).2 hb, hab]
+    rw [this] at h; cases h
+  · exact h
+
+theorem allGood_sound (D : Nat → Nat → Rat) (n : Nat) (big : Rat) (k : Nat) (st : State)
+    (hI : UInv D n st.m st.order) (h : allGood n big k st = true) :
+    ∀ t, t < k → GoodSel n big (iter n big t st) := by
+  induction k generalizing st with
+  | zero => intro t ht; omega
+  | succ k ih =>
+    unfold allGood at h
+    rw [Bool.and_eq_true] at h
+    have hg := goodSelB_sound n big st hI.len h.1
+    intro t ht
+    cases t with
+    | zero => exact hg
+    | succ t =>
+      show GoodSel n big (iter n big t (step n big st))
+      exact ih _ (step_inv D n big st hI hg) h.2 t (by omega)
+
 end CogentModel.UPGMA
